@@ -524,6 +524,8 @@ class Emitter(object):
             w("  typedef int activate_deferred_events;")
         if M.get("queue_first") and not self.mp:
             w("  typedef int event_queue_before_deferred_queue;")      # back / back11: message queue before deferred queue
+        if M.get("no_queue") and not self.mp:
+            w("  typedef int no_message_queue;")                       # back / back11: submissions are never stored
         pol = self.switch_policy(M)
         if pol != 0:
             w("  typedef msm::%s active_state_switch_policy;" % SWITCH_NAMES[pol])
@@ -751,7 +753,8 @@ class Emitter(object):
         w("  void init_caps() {")
         if v["queue"] == "circ" and not self.mp:
             for M in n.machines:
-                w("    sim_m%d(m).get_message_queue().set_capacity(256);" % M["index"])
+                if not M.get("no_queue"):
+                    w("    sim_m%d(m).get_message_queue().set_capacity(256);" % M["index"])
                 if M["has_deferred"]:
                     w("    sim_m%d(m).get_deferred_queue().set_capacity(256);" % M["index"])
         w("  }")
@@ -798,6 +801,9 @@ class Emitter(object):
             else:
                 w("    { auto& x = sim_m%d(m); for (int r = 0; r < %d; ++r) s.active[%d].push_back(x.current_state()[r]);"
                   " s.qmsg[%d] = (int)x.get_message_queue_size(); s.qdef[%d] = %s; }"
+                  % (i, nr, i, i, i, "(int)x.get_deferred_queue().size()" if M["has_deferred"] else "0")
+                  if not M.get("no_queue") else
+                  "    { auto& x = sim_m%d(m); for (int r = 0; r < %d; ++r) s.active[%d].push_back(x.current_state()[r]); s.qmsg[%d] = 0; s.qdef[%d] = %s; }"
                   % (i, nr, i, i, i, "(int)x.get_deferred_queue().size()" if M["has_deferred"] else "0"))
         w("    sim_probe(s);")
         w("  }")
@@ -1010,7 +1016,7 @@ def emit_desc(n):
             cstr(M["name"]), M["parent"], M["parent_state"], regs, ivec(M["states"]), ivec(M["rows"]), ivec(M["irows"]),
             M["history"], ivec(M["shallow_events"]), M["switch"], "true" if M["activate_deferred"] else "false",
             "true" if M["has_deferred"] else "false", "true" if M["has_completion"] else "false",
-            "true" if M["has_blocking"] else "false", "true"))
+            "true" if M["has_blocking"] else "false", "false" if M.get("no_queue") else "true"))
         w("  d.machines.back().states_back = %s;" % ivec(M["states_back"]))
         w("  d.machines.back().queue_first = %s;" % ("true" if M.get("queue_first") else "false"))
     w("  d.nleaves = %d;" % n.nleaves)
